@@ -3,6 +3,7 @@ package main
 import (
 	"encoding/json"
 	"fmt"
+	"strconv"
 	"strings"
 
 	mxj "github.com/clbanning/mxj/v2"
@@ -284,7 +285,7 @@ func c03Check(c *Ctx, v interface{}, enc string, tags []string, esc bool) (nontr
 
 func c03Run(c *Ctx) {
 	mustBeDefault(c)
-	c.S.Rule = "cases = (value, encoder, tags, escaping): every JSON-shaped template with <= N nodes over keys {a, b, -x, #text} and leaves {\"s\", \" s \", \"\", 1, true, null} (lists 0-3 incl. nested and mixed, empty containers; attribute entries scalar non-null, text entries scalar incl. null) as multi-key root, single-key root (non-list value) and AnyXml argument (default and explicit tags); encoders Map.Xml, Map.XmlIndent, AnyXml, AnyXmlIndent, j2x.JsonToXml; a second family with strings of XML special characters under XMLEscapeChars(true); an attribute-heavy family (keys {a,-x,-xy,-z,#text}, two to three attributes per element, empty and non-empty values side by side). Oracle: output well formed with exactly one root, and decoding it gives the Map the reference decode prescribes for the abstract document the encoding rules denote. Ascending and descending map order; returned bytes are retained and re-checked after later calls. non-trivial = in-domain value encoded."
+	c.S.Rule = "cases = (value, encoder, tags, escaping): every JSON-shaped template with <= N nodes over keys {a, b, -x, #text} and leaves {\"s\", \" s \", \"\", 1, true, null} (lists 0-3 incl. nested and mixed, empty containers; attribute entries scalar non-null, text entries scalar incl. null) as multi-key root, single-key root (non-list value) and AnyXml argument (default and explicit tags); encoders Map.Xml, Map.XmlIndent, AnyXml, AnyXmlIndent, j2x.JsonToXml; a second family with strings of XML special characters under XMLEscapeChars(true); an attribute-heavy family (keys {a,-x,-xy,-z,#text}, two to three attributes per element, empty and non-empty values side by side); a scale family (lists of 33-1025 scalars / maps, a map with 70 keys and 40 attributes, nesting depth 100, strings of 5000 bytes). Oracle: output well formed with exactly one root, and decoding it gives the Map the reference decode prescribes for the abstract document the encoding rules denote. Ascending and descending map order; returned bytes are retained and re-checked after later calls. non-trivial = in-domain value encoded."
 	c.S.Assumptions = []string{"attribute and text entries never stand where an element name is needed (root key, AnyXml single-key list member): outside the property's valid-XML-name premise", "reference: value -> abstract document (harness/c03.go) -> reference decode (harness/ref_xml.go)"}
 	n, n2 := 5, 4
 	if c.Thorough {
@@ -348,7 +349,53 @@ func c03Run(c *Ctx) {
 			runAll(func() interface{} { return inst(t, nil) }, esc)
 		})
 	}
+	// scale family: values large in one dimension (lists of 33-1025 scalars / maps, a map with 70 keys and
+	// 40 attributes, nesting depth 100, a string of 5000 bytes)
+	applyCfg(Cfg{AttrPrefix: "-", KeyPrefix: "#", EscEnc: true})
+	for _, mk := range c03Scale() {
+		runAll(mk, true)
+	}
 	resetOptions()
+}
+
+func c03Scale() []func() interface{} {
+	var out []func() interface{}
+	for _, n := range []int{33, 65, 129, 1025} {
+		n := n
+		out = append(out, func() interface{} {
+			l := make([]interface{}, n)
+			for i := range l {
+				l[i] = "v" + strconv.Itoa(i)
+			}
+			return map[string]interface{}{"a": l, "b": "x"}
+		}, func() interface{} {
+			l := make([]interface{}, n)
+			for i := range l {
+				l[i] = map[string]interface{}{"b": float64(i), "-x": strconv.Itoa(i), "c": []interface{}{"p", "q&r"}}
+			}
+			return map[string]interface{}{"a": l}
+		})
+	}
+	out = append(out, func() interface{} {
+		m := map[string]interface{}{}
+		for i := 0; i < 70; i++ {
+			m["k"+strconv.Itoa(i)] = "v<" + strconv.Itoa(i)
+		}
+		for i := 0; i < 40; i++ {
+			m["-x"+strconv.Itoa(i)] = strconv.Itoa(i)
+		}
+		return map[string]interface{}{"a": m}
+	}, func() interface{} {
+		var v interface{} = "bottom"
+		for i := 0; i < 100; i++ {
+			v = map[string]interface{}{"a": v, "-x": "1"}
+		}
+		return map[string]interface{}{"a": v}
+	}, func() interface{} {
+		long := strings.Repeat("x & y <z> ", 500)
+		return map[string]interface{}{"a": map[string]interface{}{"-x": long, "#text": long}, "b": []interface{}{long}}
+	})
+	return out
 }
 
 // c03HasTwoAttrs: some map of the template carries at least two attribute entries.
